@@ -64,9 +64,9 @@ type style struct {
 	pl, pr, pt, pb   dim
 	bl, br, bt, bb   float64
 	w, minW, maxW, h dim
-	minH             float64
-	maxH             float64 // < 0: none
+	minH, maxH       dim // auto = initial value (0 / none)
 	sizing           string  // content | padding | border
+	explicitNone     bool     // write max-height:none although it is the initial value
 	junk             []string // invalid declarations (must be dropped alone)
 }
 
@@ -95,10 +95,6 @@ func (n *node) depth() int {
 
 func (n *node) x() sx.X {
 	s := n.st
-	maxH := sx.A("none")
-	if s.maxH >= 0 {
-		maxH = sx.R(s.maxH)
-	}
 	kids := make([]sx.X, len(n.kids))
 	for i, k := range n.kids {
 		kids[i] = k.x()
@@ -107,7 +103,7 @@ func (n *node) x() sx.X {
 		sx.L(s.ml.x(), s.mr.x(), s.mt.x(), s.mb.x(), s.pl.x(), s.pr.x(), s.pt.x(), s.pb.x()),
 		sx.L(sx.R(s.bl), sx.R(s.br), sx.R(s.bt), sx.R(s.bb)),
 		sx.L(s.w.x(), s.minW.x(), s.maxW.x(), s.h.x()),
-		sx.R(s.minH), maxH, sx.A(s.sizing), sx.L(kids...))
+		s.minH.x(), s.maxH.x(), sx.A(s.sizing), sx.L(kids...))
 }
 
 func (s style) css() string {
@@ -120,11 +116,13 @@ func (s style) css() string {
 	fmt.Fprintf(&b, "padding:%s %s %s %s;", s.pt.css("0"), s.pr.css("0"), s.pb.css("0"), s.pl.css("0"))
 	fmt.Fprintf(&b, "border-style:solid;border-width:%vpx %vpx %vpx %vpx;", s.bt, s.br, s.bb, s.bl)
 	fmt.Fprintf(&b, "width:%s;min-width:%s;max-width:%s;height:%s;", s.w.css("auto"), s.minW.css("auto"), s.maxW.css("none"), s.h.css("auto"))
-	if s.minH != 0 {
-		fmt.Fprintf(&b, "min-height:%vpx;", s.minH)
+	if s.minH.kind != 0 {
+		fmt.Fprintf(&b, "min-height:%s;", s.minH.css("auto"))
 	}
-	if s.maxH >= 0 {
-		fmt.Fprintf(&b, "max-height:%vpx;", s.maxH)
+	if s.maxH.kind != 0 {
+		fmt.Fprintf(&b, "max-height:%s;", s.maxH.css("none"))
+	} else if s.explicitNone {
+		b.WriteString("max-height:none;")
 	}
 	if s.sizing != "content" {
 		fmt.Fprintf(&b, "box-sizing:%s-box;", s.sizing)
@@ -211,7 +209,7 @@ func genBorder(r *rng.R) float64 {
 }
 
 func genStyle(r *rng.R, leaf bool, level int) style {
-	s := style{sizing: "content", maxH: -1}
+	s := style{sizing: "content"}
 	s.mt, s.mb = genVMargin(r), genVMargin(r)
 	s.ml, s.mr = genHMargin(r), genHMargin(r)
 	s.pl, s.pr, s.pt, s.pb = genPad(r), genPad(r), genPad(r), genPad(r)
@@ -250,26 +248,36 @@ func genStyle(r *rng.R, leaf bool, level int) style {
 			s.h = px(q(r, 1, 40))
 		case k < 11:
 			s.h = px(0)
-		case k < 12:
+		case k < 13:
 			s.h = genPct(r)
 		default:
 			s.h = auto
 		}
 	} else {
 		switch k := r.Intn(20); {
-		case k < 2:
-			s.h = px(q(r, 0, 60))
 		case k < 3:
+			s.h = px(q(r, 0, 60))
+		case k < 5:
 			s.h = genPct(r)
 		default:
 			s.h = auto
 		}
 	}
-	if r.P(1, 10) {
-		s.minH = q(r, 0, 30)
+	// min-height / max-height at every level: px, percentages (against auto-height and fixed-height
+	// containing blocks alike; never 0% for max-height: Inf*0 is NaN in the code), explicit none
+	switch k := r.Intn(24); {
+	case k < 2:
+		s.minH = px(q(r, 0, 30))
+	case k < 4:
+		s.minH = genPct(r)
 	}
-	if r.P(1, 12) {
-		s.maxH = q(r, 0, 30)
+	switch k := r.Intn(24); {
+	case k < 2:
+		s.maxH = px(q(r, 0, 30))
+	case k < 5:
+		s.maxH = genPct(r)
+	case k < 6:
+		s.explicitNone = true
 	}
 	switch k := r.Intn(10); {
 	case k < 2:
@@ -281,9 +289,17 @@ func genStyle(r *rng.R, leaf bool, level int) style {
 		// html / body: often neutral so that the interesting part is not always squeezed
 		s.w, s.minW, s.maxW = auto, auto, auto
 	}
-	if level == 0 && s.h.kind == 2 {
+	if level == 0 {
 		// a percentage of the 100000px page height would leave the one-page class (and the exactness domain)
-		s.h = auto
+		if s.h.kind == 2 {
+			s.h = auto
+		}
+		if s.minH.kind == 2 {
+			s.minH = auto
+		}
+		if s.maxH.kind == 2 {
+			s.maxH = auto
+		}
 	}
 	if r.P(1, 25) {
 		// malformed stream: invalid declarations, each must be ignored on its own
@@ -572,7 +588,7 @@ func Run(tier string, seed uint64, modelPath, repo string, out *res.Result) erro
 		nTrees, nCollapse = 500000, 100000
 	}
 	out.Rule = "trees: html>body>divs, <=12 boxes, depth<=5, every box with random margins (0, +, -, auto, %), paddings (px, %), borders, " +
-		"width/min-width/max-width (auto|none, px, %), height (auto, px incl. 0, %), min/max-height (px), box-sizing, 4% invalid declarations; " +
+		"width/min-width/max-width (auto|none, px, %), height (auto, px incl. 0, %), min-height/max-height (auto|none, px, % — inside auto-height and fixed-height containing blocks), box-sizing, 4% invalid declarations; " +
 		"page width in {400,300,101,100}; all lengths multiples of 1/4 px; a case counts for the exact comparison when every model value is a multiple of 1/64 of absolute value <= 8192; " +
 		"product: {auto,-8,0,8,50%} for margin-left/right x {auto|none,0,8,50%,150px} for width/min-width/max-width x cb in {100,101} (exhaustive); " +
 		"collapse: random margin lists, collapseMargin (model) vs largest positive + most negative (spec); " +
@@ -617,7 +633,7 @@ func Run(tier string, seed uint64, modelPath, repo string, out *res.Result) erro
 }
 
 func plain() style {
-	return style{sizing: "content", maxH: -1, ml: px(0), mr: px(0), mt: px(0), mb: px(0), pl: px(0), pr: px(0), pt: px(0), pb: px(0)}
+	return style{sizing: "content", ml: px(0), mr: px(0), mt: px(0), mb: px(0), pl: px(0), pr: px(0), pt: px(0), pb: px(0)}
 }
 
 func mk(f func(s *style), kids ...*node) *node {
@@ -647,13 +663,19 @@ func (rn *runner) corpus() error {
 			mk(func(s *style) { s.h = px(10) }))},
 		// KF10-4 empty box after a negative margin
 		{mk(func(s *style) { s.mb, s.h = px(-10), px(5) }), mk(nil)},
+		// percentage max-height / min-height / height inside an auto-height container (=> none / 0 / auto) …
+		{mk(nil, mk(func(s *style) { s.maxH, s.minH, s.h = pct(50), pct(50), pct(50) }, mk(func(s *style) { s.h = px(20) })),
+			mk(func(s *style) { s.h = px(5) }))},
+		// … and inside a fixed-height one (=> 15px / 6px)
+		{mk(func(s *style) { s.h = px(30) }, mk(func(s *style) { s.maxH, s.minH = pct(50), pct(25) }, mk(func(s *style) { s.h = px(20) })),
+			mk(func(s *style) { s.minH = pct(25) }))},
 		// KF10-1 over-constrained
 		{mk(func(s *style) { s.w, s.h = px(150), px(1) }), mk(func(s *style) { s.w, s.h, s.mr = px(50), px(1), px(7) })},
 	}
 	for i, kids := range docs {
 		root := mk(nil, mk(nil, kids...))
 		pageW := 400
-		if i == 4 {
+		if i == len(docs)-1 {
 			pageW = 100
 		}
 		if err := rn.check(root, pageW, 0, "corpus", false); err != nil {
@@ -666,7 +688,7 @@ func (rn *runner) corpus() error {
 func (rn *runner) product() error {
 	ms := []dim{auto, px(-8), px(0), px(8), pct(50)}
 	ws := []dim{auto, px(0), px(8), pct(50), px(150)}
-	zero := style{sizing: "content", maxH: -1, ml: px(0), mr: px(0), mt: px(0), mb: px(0), pl: px(0), pr: px(0), pt: px(0), pb: px(0)}
+	zero := style{sizing: "content", ml: px(0), mr: px(0), mt: px(0), mb: px(0), pl: px(0), pr: px(0), pt: px(0), pb: px(0)}
 	i := 0
 	for _, cb := range []int{100, 101} {
 		for _, ml := range ms {
